@@ -1032,6 +1032,12 @@ val assign_pair : node -> (char list * node) option
 
 val lookup_assign : char list -> node list -> node option
 
+val documented_add_tag : char list
+
+val documented_add_assign_tag : char list
+
+val documented_tpl_tag : char list
+
 val tag_of_operation : node -> node list -> bool -> char list
 
 val first_arg : node list -> node option
